@@ -1,10 +1,65 @@
 """What MANIFEST.json claims, per property."""
-HOOK_COMMITS = ["77b2c42", "6128e10", "5f416f7", "71aa134", "8a2b985", "97ca607", "00b31e7"]
-FIX_COMMITS = ["5da2d24", "9b55744", "1ceb643", "2d49340", "9d87992", "737054a", "6331ab3", "02d90a3", "55099e0"]
+HOOK_COMMITS = ["77b2c42", "6128e10", "5f416f7", "71aa134", "8a2b985", "97ca607", "00b31e7", "29278f7", "85b0f09", "9dbd401"]
+FIX_COMMITS = ["5da2d24", "9b55744", "1ceb643", "2d49340", "9d87992", "737054a", "6331ab3", "02d90a3", "55099e0", "525f2ed", "54287dc", "82ec18b", "6946a78"]
 NOTES = ("Every check: TLC model-checks the module's design on small constants, then binds it to /repo's current working "
          "tree (rebuilt on every run with -tags verif). Exit 2 = infrastructure problem, never a verdict.")
 NOT_APPLICABLE = {}
 CHECKS = {
+    "C16": {
+        "text": "FzfServer.tla (atom-level byte streams; connection state machine Arrive/CloseEarly/SeeEOF/Scan/Finish; Respond; "
+                "action-list grammar; start rule) is model-checked over 2.5k request shapes x keys under every framing and early "
+                "close for key enforcement, GET read-only, malformed => rejected without effects, framing independence and well-"
+                "formed answers; TLC-exported shapes x framings with the allowed observations are replayed into the real "
+                "handleHttpRequest (scripted conn, net.Pipe) and a sample over loopback TCP into startHttpServer; action lists "
+                "through the POST and --bind parsers against the spec's parse; random byte streams / lists judged by Judge_Server.",
+        "design_ref": "DESIGN.md §6 C16",
+        "note": "CODE-DERIVED corners modelled, not demanded: partial-line final token, 10 s stall on a CRLF-terminated body, 64 KiB "
+                "token limit, extra body bytes ignored, space-padded key accepted, last duplicate header wins. Cuts fall at atom "
+                "boundaries only; request heads over 4096 bytes not modelled; the terminal-side consumer is bound only via "
+                "processExecution (the full process path is exercised by the tmux-driven checks). Trusted: TLC, the Go projection "
+                "of responses (cross-checked with net/http.ReadResponse).",
+        "technique": "TLA+ spec + TLC exhaustive MC; TLC-generated cases replayed on real code (model-based conformance); TLC-judged random streams",
+    },
+    "C01": {
+        "text": "FzfQuery.tla specifies the search syntax declaratively: tokens with `\\ ` escapes, the documented term table "
+                "(fuzzy / 'exact / 'boundary' / ^prefix / suffix$ / ^equal$, !, --exact), per-term smart case and accent "
+                "normalisation, | groups, --no-extended; code-derived corners kept apart. TLC model-checks theorems on a query typed "
+                "term by term (documented table = total classifier; AND intersects; OR only adds; !t complements t; cache "
+                "narrowing/lookup soundness). TLC exports, per (query, options), the exact set of matching line ids of fixed universes "
+                "(all 1555 strings <=4 over {a,A,b,a-acute,blank,-}; all 585 strings <=3 over the operator alphabet): exhaustive "
+                "raw-query classes plus -simulate samples of 1-3-term documented queries. Each is replayed on the real "
+                "BuildPattern+MatchItem under {v1,v2}x{forward,backward}x{positions}; a seeded sample goes through the real binary in "
+                "filter mode (sorted and +s streaming path, --tiebreak=end, --scheme=path, exit status). Seeded random longer "
+                "queries/lines over the whole alphabet run on the real matcher and every record is decided by Matches in TLC.",
+        "design_ref": "DESIGN.md §6 C01",
+        "note": "Finite alphabet (FzfChars tables are themselves checked against unicode/algo). --nth/--with-nth/--tac/--tail not "
+                "crossed here (C10/C04/C06). CODE-DERIVED: lone operators, `'a$`, bar placement, anchored terms skipping blanks at "
+                "line ends, boundary rule for bodies with non-word ends, CacheKey/Cacheable/Sortable (bound to pattern.go as "
+                "regression oracle). Named deviation TABQ classifies the known finding only. Trusted: TLC, harness mapping of "
+                "options to BuildPattern arguments / command lines.",
+        "technique": "TLA+ spec + TLC exhaustive MC of spec theorems; TLC-computed match sets replayed on real code and real binary; TLC-judged random records",
+    },
+    "C12": {
+        "text": "FzfShell.tla models Executor.QuoteEntry (POSIX and fish escapers), escapeSingleQuote and the tmux argv/export re-quoting, "
+                "a small-step POSIX shell word lexer (single/double quotes, backslash, line continuation, blanks; every other active "
+                "metacharacter = HAZARD), the placeholder scanner (flags + s r n, {}, {q}, {q:N}, {N}/{N..M}, {n}, {+n}, escaped "
+                "\\{..}, invalid ranges), buildPlusList and Expand; Want(t,state) is the shell reading the property demands (each "
+                "unquoted placeholder contributes exactly its original texts, one word per item). TLC proves ShEval(Quote(s))=<<s>>, "
+                "one-word-per-item and tmux/fish round trips for every string <=5 over 18 symbols (' \" \\ $ ` space LF * ; & | ( { } "
+                "! # ~ a) and ExpansionReadsBack / EscapedStayLiteral / PlusCoversSelection / Ordinals for every (template <=3 of 31 "
+                "tokens, terminal state) pair. E: all those strings and pairs are replayed on the real QuoteEntry / "
+                "escapeSingleQuote / Terminal.selectItem+buildPlusList+replacePlaceholder (byte-equal to the spec) and handed to "
+                "/bin/sh (dash), bash and bash --posix, whose argv must equal the words TLC computed; every inert line <=7 over "
+                "{' \" \\ space LF $ a} validates the shell model itself on the same shells. J: random multi-line records through "
+                "replacePlaceholder + the real Executor.ExecCommand under every shell, and re-launches of the real binary with "
+                "--tmux (stand-in tmux recording argv/env), judged by Judge_Shell.",
+        "design_ref": "DESIGN.md §6 C12",
+        "note": "Fish escaper bound to code only (no fish binary). NUL excluded. {f}, {fzf:*}, comma range lists, --delimiter and ANSI "
+                "stripping not modelled (C10/C11). Claimed only for placeholders in unquoted position and not {r} (documented). "
+                "Templates whose own text has active metacharacters are compared textually only. Interactive execute/preview under a "
+                "tty is covered by the tmux-driven checks. Trusted: TLC, the symbol-table mapping, the stand-in tmux script.",
+        "technique": "TLA+ spec + TLC exhaustive MC; TLC-computed cases replayed on real code and on the real shells; real executions judged by TLC",
+    },
     "C10": {
         "text": "FzfFields.tla (Tokenize for AWK / literal / a menu of regex delimiters, ParseRange, Select/Transform, --nth scopes with "
                 "offsets in full-line characters, --with-nth / --accept-nth renditions incl. templates and StripLastDelimiter, {N} and "
